@@ -31,7 +31,10 @@
 #ifndef NE_MIN
 #define NE_MIN NE /* number of edges is a choice in [NE_MIN, NE] */
 #endif
-#define SEQ_L (2 * NE + 1)
+#ifndef COORD_SCALE
+#define COORD_SCALE 1 /* every coordinate is a multiple of this (2: halves of spans stay integers) */
+#endif
+#define SEQ_L (COORD_SCALE * (2 * NE + 1))
 #ifndef SITE_ANC
 #define SITE_ANC "A"
 #define SITE_ANC_LEN 1
@@ -76,7 +79,7 @@ h_build_treeseq(tsk_table_collection_t *t, tsk_treeseq_t *ts, h_tables_t *T)
 #ifdef FIXED_TABLE
     /* one concrete 4-node, 4-edge, 5-tree sequence with an internal sample, a gap and an empty last tree */
     static const tsk_id_t ft_p[4] = { 1, 2, 3, 3 }, ft_c[4] = { 0, 0, 1, 2 };
-    static const double ft_l[4] = { 0, 4, 0, 2 }, ft_r[4] = { 3, 7, 7, 7 };
+    static const double ft_l[4] = { 0, COORD_SCALE * 4, 0, COORD_SCALE * 2 }, ft_r[4] = { COORD_SCALE * 3, COORD_SCALE * 7, COORD_SCALE * 7, COORD_SCALE * 7 };
     tp = 2;
     sp = 1;
     ne = 4;
@@ -126,8 +129,8 @@ h_build_treeseq(tsk_table_collection_t *t, tsk_treeseq_t *ts, h_tables_t *T)
         T->left[j] = 0;
         T->right[j] = SEQ_L;
 #else
-        T->left[j] = sym_f64_int(sym_nm(nm, "l", j));
-        T->right[j] = sym_f64_int(sym_nm(nm, "r", j));
+        T->left[j] = COORD_SCALE * sym_f64_int(sym_nm(nm, "l", j));
+        T->right[j] = COORD_SCALE * sym_f64_int(sym_nm(nm, "r", j));
         sym_assume(0 <= T->left[j] && T->left[j] < T->right[j] && T->right[j] <= SEQ_L);
 #ifdef PIN_RIGHT_MASK
         if ((PIN_RIGHT_MASK >> j) & 1) {
@@ -140,7 +143,7 @@ h_build_treeseq(tsk_table_collection_t *t, tsk_treeseq_t *ts, h_tables_t *T)
         sym_assume(ret == j);
     }
     for (j = 0; j < NS; j++) {
-        site_pos[j] = sym_f64_int(sym_nm(nm, "x", j));
+        site_pos[j] = COORD_SCALE * sym_f64_int(sym_nm(nm, "x", j));
         sym_assume(0 <= site_pos[j] && site_pos[j] < SEQ_L);
         if (j > 0) {
             sym_assume(site_pos[j - 1] < site_pos[j]);
